@@ -100,6 +100,31 @@ def ieee_whole_bins(ck, prog, fi):
     ck.run.floor("R2", "whole-bin witnesses evaluated in double precision", n, 10 if not unk else 0)
 
 
+def inband_oracle(df):
+    """The formula scenarios shift by less than the bandwidth (the out-of-band case has its own rule): a test that compares the
+    shift with the sample rate and has one answer for every in-band shift of either sign is decided that way; tests that depend on
+    the sign or size of an in-band shift (which side is zero-filled, by how many bins) stay undecided and are if-converted."""
+    def o(c, node, fr):
+        try:
+            if not isinstance(c, sp.Basic) or not c.free_symbols or not c.free_symbols <= {df, SR, Hz} or SR not in c.free_symbols:
+                return None
+            vals = set()
+            for srv in (sp.Integer(10)**6, sp.Integer(4099)):
+                for frac_ in ((sp.Rational(1, 8), sp.Rational(-1, 8), sp.Rational(1, 1000), sp.Rational(-999, 1000), sp.Rational(999, 1000))
+                              if df in c.free_symbols else (0,)):
+                    v = c.subs({df: frac_ * srv, SR: srv, Hz: 1})
+                    v = sp.simplify(v)
+                    if v not in (sp.true, sp.false):
+                        return None
+                    vals.add(bool(v))
+            if len(vals) == 1:
+                return vals.pop()
+        except Exception:
+            return None
+        return None
+    return o
+
+
 def check(run, prog):
     run.explanation = EXPLANATION
     run.assumptions += ["real-number semantics; fft/ifft/fftshift as opaque injective operators"]
@@ -110,11 +135,39 @@ def check(run, prog):
     for clsname, dtype in (("BasebandSignal", "complex128"), ("DualPolarizationSignal", "complex64")):
         z = make_signal(prog, clsname, nchan=2, dtype=dtype)
         tag = f"[{clsname}, {dtype}]"
-        ev = ck.evaluator()
+        ev = ck.evaluator(oracle=inband_oracle(df))
         out = ck.attempt("R1", fi.where, "freq_shift(z, df) " + tag, "evaluates with consistent units", lambda: ev.call(fi, [z, Num(df * Hz, kind="quantity")], {}),
                          ev=ev, allowed_guards=[])
         if out is None:
             continue
+        from ..symeval import PhiV
+        if isinstance(out, PhiV):
+            # a shortcut taken for some shifts (say, everything out of band): every arm must return the caller's kind of signal with the
+            # ledger untouched; the formula below is then checked on the arm taken by an in-band shift
+            arms, todo = [], [(sp.true, out)]
+            while todo:
+                c_, v_ = todo.pop()
+                if isinstance(v_, PhiV):
+                    cond = v_.cond if isinstance(v_.cond, sp.Basic) else sp.Symbol(str(v_.cond))
+                    todo += [(sp.And(c_, cond), v_.a), (sp.And(c_, sp.Not(cond)), v_.b)]
+                else:
+                    arms.append((c_, v_))
+            chosen = None
+            for c_, v_ in arms:
+                okv = isinstance(v_, ObjV) and v_.cls is z.cls and not meta_same(z, v_)
+                ck.same("R1", fi.where, f"ledger of the result returned when {str(c_)[:80]} " + tag, "type, sample rate, start time and frequency labels unchanged on every return path",
+                        okv, found=(v_.cls.name if isinstance(v_, ObjV) else repr(v_)[:60]) + (": " + "; ".join(meta_same(z, v_)) if isinstance(v_, ObjV) and meta_same(z, v_) else ""),
+                        nontrivial=True)
+                try:
+                    inband = c_.subs(df, SR / 8)
+                    if inband == sp.true or (inband.free_symbols and sp.simplify(inband.subs(SR, 1000)) == sp.true):
+                        chosen = v_
+                except Exception:
+                    pass
+            if not isinstance(chosen, ObjV):
+                ck.unk("R1", fi.where, "freq_shift(z, df) " + tag, "the return path of an in-band shift can be singled out", str(out)[:160])
+                continue
+            out = chosen
         d = out.attrs["_data"]
         D = z.attrs["_data"].expr
         nn = [s_ for s_ in d.expr.free_symbols if s_.name.startswith("n") and s_.name[1:].isdigit()] if isinstance(d, Num) else []
@@ -165,6 +218,24 @@ def check(run, prog):
     ieee_whole_bins(ck, prog, fi)
     # ------------------------------------------------------------------ R1 per-element shifts (array shift, symbolic N), both back ends
     import itertools
+    # shifts of a full bandwidth or more: whatever path produces the all-zero result, it is the caller's kind of signal with the
+    # same ledger and dtype
+    for clsname, dtype in (("BasebandSignal", "complex128"), ("DualPolarizationSignal", "complex64")):
+        for label, dfv in (("2*sample_rate", 2 * SR), ("-3/2*sample_rate", -sp.Rational(3, 2) * SR), ("exactly sample_rate", SR)):
+            z = make_signal(prog, clsname, nchan=2, dtype=dtype)
+            tag = f"[{clsname}, {dtype}, df = {label}]"
+            ev = ck.evaluator()
+            out = ck.attempt("R1", fi.where, "freq_shift(z, df) " + tag, "evaluates for an out-of-band shift", lambda: ev.call(fi, [z, Num(dfv * Hz, kind="quantity")], {}),
+                             ev=ev, allowed_guards=[])
+            if out is None:
+                continue
+            badm = meta_same(z, out) if isinstance(out, ObjV) else ["not a signal"]
+            dd = out.attrs.get("_data") if isinstance(out, ObjV) else None
+            dt_ok = isinstance(dd, Num) and (dd.dtype is None or getattr(dd.dtype, "dotted", None) == getattr(z.attrs["_data"].dtype, "dotted", None))
+            ck.same("R1", fi.where, "ledger " + tag, "type, dtype, sample rate, start time and frequency labels unchanged for an out-of-band shift",
+                    isinstance(out, ObjV) and out.cls is z.cls and not badm and dt_ok,
+                    found=(out.cls.name if isinstance(out, ObjV) else repr(out)[:60]) + ("; " + "; ".join(badm) if badm else "") + ("" if dt_ok else f"; dtype {getattr(dd, 'dtype', None)!r}"),
+                    nontrivial=True)
     from fractions import Fraction
     from .. import terms
     arr_cases = [((2, 3), (2,), [Fraction(3, 2), Fraction(-2)]), ((2, 3), (2, 1), [Fraction(1), Fraction(-5, 2)]),
@@ -176,7 +247,7 @@ def check(run, prog):
         for sample_shape, shp, vals in (arr_cases if backend == "numpy" else arr_cases[:2]):
             z = make_signal(prog, "BasebandSignal", nchan=sample_shape[0], extra=sample_shape[1:], dtype="complex128", backend=backend)
             tag = f"[{backend}, sample shape {sample_shape}, shift shape {shp} = {[str(v) for v in vals]} Hz]"
-            ev = ck.evaluator()
+            ev = ck.evaluator(oracle=inband_oracle(df))
             sh = NdArr(shp, [Num(sp.Rational(v.numerator, v.denominator) * Hz, kind="quantity", unit=Hz) for v in vals])
             out = ck.attempt("R1", fi.where, "freq_shift(z, array) " + tag, "evaluates", lambda: ev.call(fi, [z, sh], {}), ev=ev, allowed_guards=[])
             if out is None:
